@@ -176,6 +176,9 @@ def analyse_cell(args):
         wiring = []
         seen_calls = set()
         for fname, kw, ok in evl.calls:
+            if fname == '<generated>':
+                wiring.append('the generated code reads a name that is not in scope at that level (NameError at request time)')
+                continue
             seen_calls.add(fname)
             f = by_name[fname]
             want = dict((n, exp[fname][n]) for n in f.declared if n in exp[fname])
@@ -216,7 +219,7 @@ def analyse_cell(args):
             if q.get('r') == 'sat' and q.get('beh'):
                 vectors.append(q['beh'])
         while len(vectors) < nvalid + 1:
-            vectors.append(dict((f.name, rnd.choice([0, 1, 2, 3, 4] if f.kind == 'mw' else ([0, 1, 3] if f.kind == 'ep' else [0, 1])))
+            vectors.append(dict((f.name, rnd.choice([0, 1, 2, 3, 4, 5] if f.kind == 'mw' else ([0, 1, 3, 5] if f.kind == 'ep' else [0, 1, 5])))
                                 for f in finfos))
         from werkzeug.test import EnvironBuilder
         from werkzeug.wrappers import Request
